@@ -53,9 +53,11 @@ def strategy(tier):
     # handshake step) is an abandoned connection as well
     rmap = st.one_of(st.just({}), st.just({}), st.just({}), st.dictionaries(
         st.sampled_from(RAISABLE), st.integers(1, 3), min_size=1, max_size=2))
-    return st.builds(lambda cs, ex, es, j, sm, rm: dict({"cycles": cs, "exit_at": ex, "jitter": j, "suspend_map": sm}, **({"exit_step": es} if es else {}),
-                                                        **({"raise_map": rm} if rm else {})),
-                     st.lists(cyc, min_size=0, max_size=5), t, st.one_of(st.just(0), st.just(0), st.integers(1, 400)), jitter, smap, rmap)
+    # a client task is in the middle of a facade command (the spa does not acknowledge) when the first reset / exit comes
+    infl = st.one_of(st.none(), st.none(), st.none(), st.tuples(st.sampled_from(["press", "pump", "temp"]), st.sampled_from([0.3, 1.0, 3.0, 5.5, 7.0])).map(list))
+    return st.builds(lambda cs, ex, es, j, sm, rm, inf: dict({"cycles": cs, "exit_at": ex, "jitter": j, "suspend_map": sm}, **({"exit_step": es} if es else {}),
+                                                             **({"raise_map": rm} if rm else {}), **({"inflight": inf} if inf else {})),
+                     st.lists(cyc, min_size=0, max_size=5), t, st.one_of(st.just(0), st.just(0), st.integers(1, 400)), jitter, smap, rmap, infl)
 
 
 _STEPS = {}
@@ -169,6 +171,29 @@ def run_case(case) -> Result:
                     if man.spa_state in busy_states:
                         info["busy_inject"] = True
 
+                infl = case.get("inflight") if (ci == 0 and fault == "none" and not step) else None
+                if infl:
+                    # steady state first, then a command whose acknowledgement never comes, then (lead seconds later) the injection
+                    await pump_until(max(W.clock.t, t_c + 8.0))
+                    if man.facade is not None and man.spa_state == S.CONNECTED:
+                        W.s2c_filter = lambda data: "drop" if b"<DATAS>PACKS" in data else None
+                        fac = man.facade
+
+                        async def user_command():
+                            try:
+                                if infl[0] == "press":
+                                    await man._spa.async_press(1)
+                                elif infl[0] == "pump" and fac.pumps:
+                                    await fac.pumps[0].async_set_mode(fac.pumps[0].modes[-1])
+                                else:
+                                    await fac.water_heater.async_set_target_temperature(fac.water_heater.target_temperature + 1)
+                            except asyncio.CancelledError:
+                                raise
+                            except Exception as e:   # the command fails in the client's own task when its connection goes away
+                                info["user_exc"] = repr(e)
+                        info["user_task"] = asyncio.ensure_future(user_command())
+                        info["user_task"].set_name("VP:user command")
+                        at = (W.clock.t - t_c) + float(infl[1])
                 if step:
                     box = {}
 
@@ -192,6 +217,10 @@ def run_case(case) -> Result:
                     else:
                         await man.async_set_spa_info(peer.addr[0], manager.SPA_ID_STR, "Spa")
                 t_inj = W.clock.t
+                W.s2c_filter = None
+                if infl and "user_task" in info:
+                    info["inflight_at"] = t_inj
+                    info["n_delivered"] = len(man.delivered)
                 for g in info["gens"]:
                     if g["dead_at"] is None:
                         g["dead_at"] = t_inj
@@ -229,6 +258,20 @@ def run_case(case) -> Result:
                         if stale_alive:
                             info["stale"].update(id(t) for t in win_tasks)
                             res.fail(f"C10|stale-connect-tasks|{kind}", f"cycle {ci}: tasks of the abandoned connection attempt keep running: {sorted(set(stale_alive))}")
+                if infl and "inflight_at" in info and ci == 0:
+                    await pump_until(max(W.clock.t, t_inj + 100.0))
+                    # the abandoned connection's request must not speak up any more: on the healthy network the only events now are
+                    # those of the new connection, none of them an error, and the manager is connected again
+                    late = [d for d in man.delivered[info["n_delivered"]:] if d["event"].name.startswith("ERROR_") or "RETRY_COUNT_EXCEEDED" in d["event"].name]
+                    if late:
+                        res.fail(f"C10|late-event|{late[0]['event'].name}", f"cycle 0: a facade command ({infl[0]}) was waiting for its acknowledgement when {kind} "
+                                 f"was called; {late[0]['t'] - t_inj:.1f}s later the client is told {late[0]['event'].name} (state {late[0]['state'].name}) on a healthy network")
+                    elif man.spa_state != S.CONNECTED:
+                        res.fail(f"C10|late-event|not-reconnected|{man.spa_state.name}", f"cycle 0: 100 s after {kind} with a facade command in flight the manager is {man.spa_state.name}")
+                    ut = info["user_task"]
+                    if not ut.done():
+                        ut.cancel()
+                        res.fail("C10|task-survives|user-command", f"cycle 0: the client's facade command is still pending 100 s after {kind}")
                 late_traffic()
                 await pump_until(W.clock.t + 150.0)
                 info["cycle_counts"].append((len([t for t in open_eps() if id(t) not in info["stale"]]),
@@ -311,6 +354,9 @@ def run_case(case) -> Result:
     res.nontrivial = info["busy_inject"] or info.get("raised", 0) > 0
     if info.get("raised"):
         res.label("connection-attempt-raised")
+    if "inflight_at" in info:
+        res.nontrivial = True
+        res.label("command-in-flight-at-reset")
     res.label(f"cycles-{min(len(case['cycles']), 3)}")
     if info["busy_inject"]:
         res.label("inject-in-discovery-or-handshake")
